@@ -947,10 +947,10 @@ def eval_case(case):
     for n in names:
         if n not in st.by_name:
             return [{'kind': 'stale-case', 'detail': f'spec {n} no longer exists', 'calls': names, 'shape': case['shape'], 'changed': []}]
-    g0 = db_stamp_full()
+    g0 = module_tables_digest()
     f, _ = single_check(None, st.by_name[names[-1]], w0=w0, wire=case['shape'])
     out += f
-    if db_stamp_full() != g0:
+    if module_tables_digest() != g0:
         out.append(fail('global-state-disturbed', case['shape'], names, st.by_name[names[-1]].api +
                         ': content of the EntryDb maps or of a module-level table of the package changed during the call'))
     if len(names) > 1 and not st.by_name[names[-1]].random:
